@@ -1953,6 +1953,13 @@ func oracleC16(r *rng, n int, tier string) *oracleResult {
 			pool = append(pool, bad, withID)
 			h := &exHistory{Pool: pool, History: []int{len(pool) - 2, len(pool) - 1, len(pool) - 2, len(pool) - 1}}
 			fs := checkC16With(h, fresh)
+			for i := range fs {
+				// (the `id` here is no URI at all: not the half-implemented scoping of findings F10/F10b, whose shape the
+				// presence of an `id` member would otherwise give)
+				if strings.HasPrefix(fs[i].Shape, "history-changes-result") {
+					fs[i].Shape = "history-changes-result:text-that-is-no-url"
+				}
+			}
 			t.res.Evaluations += 3
 			t.eval(exCompactHistory(h), fs, nil)
 		}
